@@ -293,6 +293,9 @@ func corruptHarness(rc *RunCtx) {
 	env.kill()
 }
 
+// ids far from anything a few flipped bits of the corrupted template (id 555) can decode to
+const warmID, canaryID = int64(7777000001), int64(7777000002)
+
 func corruptSubscriber(rc *RunCtx, s *simrt.Sim, entry, proto string) {
 	tp := rc.Tape
 	pf := frugal.NewFProtocolFactory(protoFactory(proto))
@@ -342,7 +345,7 @@ func corruptSubscriber(rc *RunCtx, s *simrt.Sim, entry, proto string) {
 			return
 		}
 		settle(10 * time.Millisecond)
-		pub.PublishItemCreated(frugal.NewFContext("c"), "u", genItem(tp, 1))
+		pub.PublishItemCreated(frugal.NewFContext("c"), "u", genItem(tp, warmID))
 		settle(time.Second)
 		valid := EncodeFrame(map[string]string{"_opid": "9", "_cid": "c"}, rawMessage(proto, "ItemCreated", thrift.CALL, []rawField{{1, thrift.I64, int64(555)}}))
 		n := 1 + tp.Intn("cfg", 3)
@@ -352,7 +355,7 @@ func corruptSubscriber(rc *RunCtx, s *simrt.Sim, entry, proto string) {
 			inject(bad)
 		}
 		settle(time.Second)
-		pub.PublishItemCreated(frugal.NewFContext("c"), "u", genItem(tp, 2))
+		pub.PublishItemCreated(frugal.NewFContext("c"), "u", genItem(tp, canaryID))
 		settle(time.Second)
 		finished = true
 	})
@@ -366,10 +369,10 @@ func corruptSubscriber(rc *RunCtx, s *simrt.Sim, entry, proto string) {
 	case !finished:
 		rc.Violate("C05", "system-wedged", key, where)
 	default:
-		if got[1] != 1 {
+		if got[warmID] != 1 {
 			rc.Violate("INFRA", "warm-up-publish-not-delivered", key, fmt.Sprint(got))
-		} else if got[2] != 1 {
-			rc.Violate("C05", "canary-failed", key, fmt.Sprintf("%s: a well-formed message published afterwards was delivered %d times", where, got[2]))
+		} else if got[canaryID] != 1 {
+			rc.Violate("C05", "canary-failed", key, fmt.Sprintf("%s: a well-formed message published afterwards was delivered %d times", where, got[canaryID]))
 		}
 	}
 	s.Shutdown()
